@@ -38,6 +38,10 @@ type world struct {
 	delegate  [2][2]*ident // [issuer kind][0 = RSA key, 1 = ECDSA key], issued by issuer[kind]
 	stranger  [2]*ident    // [0 = RSA key, 1 = ECDSA key], issued by other
 	impostor  [2]*ident    // ECDSA leaf issued by a CA that has issuer[kind]'s name but another key
+	// lookalike[kind]: certificates that copy identifying fields of issuer[kind]'s certificate (subject DN,
+	// subject key id, serial number, or every field) but hold a stranger's key and are signed by that
+	// stranger (self-signed) or by the unrelated CA - never by the issuer's key.
+	lookalike [2][]*ident
 }
 
 func mustCert(tmpl, parent *x509.Certificate, pub crypto.PublicKey, signer crypto.Signer) *x509.Certificate {
@@ -127,6 +131,43 @@ func buildWorld() *world {
 		w.impostor[k] = issue("C48 Impostor delegate", ec(elliptic.P256()), fake)
 		if !bytes.Equal(w.impostor[k].cert.RawIssuer, w.issuer[k].cert.RawSubject) {
 			panic("impostor certificate does not name the issuer")
+		}
+	}
+	for k := 0; k < 2; k++ {
+		ic := w.issuer[k].cert
+		mk := func(name string, key crypto.Signer, edit func(t *x509.Certificate), ca *ident) {
+			t := leafTemplate("C48 lookalike")
+			edit(t)
+			parent, signer := t, key
+			if ca != nil {
+				parent, signer = ca.cert, ca.key
+			}
+			id := (&ident{name: name, key: key, cert: mustCert(t, parent, key.Public(), signer)}).finish()
+			if id.ref.SignedBy(w.issuer[k].ref.Public) {
+				panic("lookalike certificate verifies under the issuer's key")
+			}
+			w.lookalike[k] = append(w.lookalike[k], id)
+		}
+		subj := func(t *x509.Certificate) { t.RawSubject = ic.RawSubject }
+		skid := func(t *x509.Certificate) { t.SubjectKeyId = ic.SubjectKeyId }
+		serial := func(t *x509.Certificate) { t.SerialNumber = ic.SerialNumber }
+		all := func(t *x509.Certificate) {
+			t.RawSubject, t.SerialNumber, t.SubjectKeyId, t.AuthorityKeyId = ic.RawSubject, ic.SerialNumber, ic.SubjectKeyId, ic.AuthorityKeyId
+			t.NotBefore, t.NotAfter, t.KeyUsage, t.ExtKeyUsage, t.IsCA, t.BasicConstraintsValid = ic.NotBefore, ic.NotAfter, ic.KeyUsage, ic.ExtKeyUsage, true, true
+		}
+		mk("a self-signed ECDSA certificate with the issuer's subject (and thus issuer) DN", ec(elliptic.P256()), subj, nil)
+		mk("a self-signed RSA certificate with the issuer's subject (and thus issuer) DN", rsaKeys[2], subj, nil)
+		mk("an ECDSA certificate with the issuer's subject DN issued by another CA", ec(elliptic.P256()), subj, w.other)
+		mk("a self-signed ECDSA certificate with the issuer's subject key id", ec(elliptic.P256()), skid, nil)
+		mk("an ECDSA certificate with the issuer's subject key id issued by another CA", ec(elliptic.P256()), skid, w.other)
+		mk("an ECDSA certificate with the issuer's serial number issued by another CA", ec(elliptic.P256()), serial, w.other)
+		mk("a self-signed ECDSA copy of every field of the issuer's certificate but the key", ec(elliptic.P256()), all, nil)
+		mk("a self-signed RSA copy of every field of the issuer's certificate but the key", rsaKeys[2], all, nil)
+		mk("an ECDSA copy of the issuer's certificate fields issued by another CA", ec(elliptic.P256()), all, w.other)
+		for _, l := range w.lookalike[k][:3] {
+			if !bytes.Equal(l.cert.RawSubject, ic.RawSubject) {
+				panic("lookalike subject is not the issuer's subject")
+			}
 		}
 	}
 	w.stranger[0] = issue("C48 Stranger RSA", rsaKeys[2], w.other)
